@@ -131,3 +131,27 @@ PROPS["C18"] = {
     "outside": "",
     "assumptions": [],
 }
+
+_MOCK_RULES = [
+    [r"11find_region", 4], [r"10try_access", 5], [r"MockMem5owner", 4], [r"MockMem3run", 9], [r"10any_layout", 4],
+    [r"10MockRegion.*5(write|read)\.", 8],
+    [r"19copy_slice_volatile", 9],
+]
+
+PROPS["C03"] = {
+    "groups": [
+        # L1: real try_access + blanket Bytes<GuestAddress> over the contract-level mock, symbolic layouts
+        {"crate": "std", "quick": ["c03::r1", "c03::r2::write", "c03::r2::read"], "thorough": ["c03::r2", "c03::r3"],
+         "jobs": 6, "mem_gb": 10, "timeout_s": 1200, "timeout_thorough_s": 3600,
+         "unwindset": {"default": 3, "rules": _MOCK_RULES}},
+        # L2: the real GuestRegionMmap satisfies the region contract
+        {"crate": "std", "quick": ["regn::"], "jobs": 6, "mem_gb": 10, "timeout_s": 900, "stubbed": True},
+    ],
+    "bounds": "L1: layouts of 1..2 (thorough: 3) sorted disjoint regions, bases symbolic 64-bit, sizes 1..=4 symbolic, ends <= 2^64-2; start address "
+              "unconstrained u64; buffer length 1..=6; one operation from an arbitrary memory state; symbolic (region, offset) index for bytes, frame and marks. "
+              "L2: real GuestRegionMmap over a 16-byte raw-pointer region (64-byte page model), address unconstrained, buffers <= 12 bytes. L3 = C02.",
+    "outside": "the composition L1 & L2 & L3 => property for GuestMemoryMmap is an argument in DESIGN.md, not a solver query; file-backed / Xen-UNIX backing "
+               "(bytes behind mmap are the kernel's; the pointer/offset arithmetic is what is checked); layouts with more than 3 regions; regions larger than 4 bytes at L1",
+    "assumptions": ["mock.rs: region buffer forms are the obvious byte loop implementing the documented region contract; stream/atomic/slice forms delegate to a real VolatileSlice",
+                    "cffi.rs: sysconf answers a 64-byte page for raw-pointer regions"],
+}
